@@ -347,7 +347,7 @@ def run(chk):
     chk.functions += ["iodata.formats.wfn.dump_one / wfx.dump_one: basis passed to get_mocoeff_scales", "iodata.formats.fchk.prepare_dump (symbolic execution, all sizes and occupations; plus exhaustive small scope as cross-check)"]
     chk.trusted += [
         "numpy fancy indexing and broadcasting behave uniformly in the matrix size (use-site obligations are exhaustive for n = 4 only)",
-        "contract of convert_conventions (C10), of convert_to_segmented / convert_to_unrestricted / prepare_* (C14), overlap (C06): proved in those checks, used here",
+        "contract of convert_conventions (C10), of convert_to_segmented / convert_to_unrestricted (C14), overlap (C06): proved in those checks, used here; the prepare_* contracts of C14 are re-proved in this check",
         "bounded/overlap_oracle.py as the definition of the basis functions (validated against docs/basis.rst in C06)",
     ]
     chk.not_covered += [
@@ -364,7 +364,12 @@ def run(chk):
     chk.merge(led)
     from pyvc.pool import collect, run_jobs
 
-    collect(chk, run_jobs([("checks.c01", "job_fchk_guard", {"kind": k, "aminusb": a}) for k, a in (("unrestricted", False), ("restricted", False), ("restricted", True))]))
+    jobs = [("checks.c01", "job_fchk_guard", {"kind": k, "aminusb": a}) for k, a in (("unrestricted", False), ("restricted", False), ("restricted", True))]
+    # "after an allowed, announced conversion": the contracts of the two prepare_* helpers every writer calls (identity only
+    # when nothing needs converting, PrepareDumpError without allow_changes, PrepareDumpWarning + conversion with it) are
+    # those proved for C14; they are re-proved here on every run
+    jobs += [("checks.c14", "job_prepare_unrestricted", {}), ("checks.c14", "job_prepare_segmented", {})]
+    collect(chk, run_jobs(jobs))
     probe = os.path.join(VERIF, "bounded", "wfn_probe.py")
     for o in chk.ledger.obligations.values():
         if o.status == "refuted" and o.name.startswith(("use-site@", "scales@")):
